@@ -574,7 +574,7 @@ func init() {
 		ID: "C12", Level: "exploration", Run: c12Run,
 		Shards: func(string) int { return 16 },
 		Rule: func(tier string) string {
-			return "complete enumeration where the domain is small (all 1000 MCC x all 2- and 3-digit MNC; all 2^24 AMF identifiers in both directions; all routing indicators of 1..4 digits) and structured alphabets elsewhere (5G-GUTI: PLMN alphabet with all single-digit variations x AMF ids incl. every single-bit id x TMSIs with every octet through all 256 values; SUCI schemes/key ids/MSIN lengths 1..10 with every digit at every position; IMEI/IMEISV every digit at every position; <=1 mutation of valid texts for the error half). Oracle: reference coders written from TS 24.501 9.11.3.4 / TS 24.008 10.5.1.3 / TS 23.003 (refconv); nasConvert and the nasType.MobileIdentity5GS text getters must both agree with it; round trips text->wire->text and wire->text->wire."
+			return "complete enumeration where the domain is small (all 1000 MCC x all 2- and 3-digit MNC; all 2^24 AMF identifiers in both directions; all routing indicators of 1..4 digits) and structured alphabets elsewhere (5G-GUTI: PLMN alphabet with all single-digit variations x AMF ids incl. every single-bit id x TMSIs with every octet through all 256 values; SUCI schemes/key ids/MSIN lengths 1..10 with every digit at every position; IMEI/IMEISV every digit at every position; <=1 mutation of valid texts for the error half). Oracle: reference coders written from TS 24.501 9.11.3.4 / TS 24.008 10.5.1.3 / TS 23.003 (refconv); nasConvert and the nasType.MobileIdentity5GS text getters must both agree with it; round trips text->wire->text and wire->text->wire. Wire octets are handed over as a sub-slice of a larger buffer with spare capacity and canary octets on both sides; the octets before, inside and after the input must be unchanged after the call (whatever the caller renders next from the same buffer must not have been touched)."
 		},
 		Assumptions: []string{"TMSI/MSIN/IMEI value spaces are covered by per-position alphabets, not completely", "canonical text is lower-case hex"},
 		Finish:      finishDistinct("distinct by identity kind and all its fields; non-trivial = the identity is not degenerate (PLMN not all zero, AMF id with non-zero set and pointer parts, TMSI non-zero; SUCI / PEI / text cases always)"),
